@@ -147,7 +147,8 @@ static Dec decompose(double lat, double lon, int setzone, bool mgrs) {
     x += spec::F_UPS; y += spec::F_UPS;
   }
   d.x = x; d.y = y; d.g = g; d.k = k;
-  d.accept = spec::inside(spec::rect(z != spec::UPS, d.northp, mgrs), x, y) || std::isnan(x) || std::isnan(y);
+  // NaN coordinates from NaN input pass the range test ("NaNs succeed"); NaN from finite input (the singular point of TM) cannot be inside
+  d.accept = spec::inside(spec::rect(z != spec::UPS, d.northp, mgrs), x, y) || ((std::isnan(lat) || std::isnan(lon) || std::isinf(lon)) && (std::isnan(x) || std::isnan(y)));
   return d;
 }
 // compare a Forward outcome with the decomposition; regime = class label
@@ -159,12 +160,17 @@ static void judge_forward_dec(Ctx& ctx, double lat, double lon, int setzone, boo
   Dec d = decompose(lat, lon, setzone, mgrs);
   if (o.threw) {
     if (d.accept) {
-      // the library has two extra early rejections (|dlon| > 60 for UTM, |lat| < 70 for UPS) that are documented as redundant
-      ctx.viol("range:C04/forward/rejected-although-inside-documented-rectangle", cls, J(in).str("what", o.what).i("zone", d.zone).f("x", d.x).f("y", d.y));
+      // the library has two extra early rejections (dlon > 60 for UTM, |lat| < 70 for UPS) that are documented as redundant
+      bool nanin = std::isnan(lat) || std::isnan(lon) || std::isinf(lon);
+      ctx.viol(nanin ? "nan:C04/forward/forced-zone-throws-on-nan" : "range:C04/forward/rejected-although-inside-documented-rectangle", cls, J(in).str("what", o.what).i("zone", d.zone).f("x", d.x).f("y", d.y));
     }
     return;
   }
-  if (!d.accept) { ctx.viol("range:C04/forward/accepted-although-outside-documented-rectangle", cls, J(in).i("zone", o.zone).f("x", o.x).f("y", o.y)); return; }
+  if (!d.accept) {
+    bool nanout = (std::isnan(o.x) || std::isnan(o.y)) && std::isfinite(lat) && std::isfinite(lon);
+    ctx.viol(nanout ? "range:C04/forward/nan-coordinates-returned-for-finite-input" : "range:C04/forward/accepted-although-outside-documented-rectangle", cls, J(in).i("zone", o.zone).f("x", o.x).f("y", o.y));
+    return;
+  }
   if (o.zone != d.zone) { ctx.viol("spec:C04/forward/zone", cls, J(in).i("zone", o.zone).i("want", d.zone)); return; }
   if (o.northp != d.northp) ctx.viol("spec:C04/forward/hemisphere", cls, J(in).b("northp", o.northp));
   if (d.zone == spec::INVALID) {
@@ -200,8 +206,10 @@ static void sec_lattice(Ctx& ctx, uint64_t idx) {
       std::string cls = std::string("zone-lattice/") + regime(lat, lon) + (lv == 3 && v == 3 ? "/cell-centre" : "/cell-edge");
       ctx.count(cls, vh::hmix(vh::hmix(11, lat), lon));
       if (lonedge % 45 == 0 && v == 1 && ctx.want_sample(cls)) ctx.sample(cls, J().f("lat", lat).f("lon", lon));
-      // StandardZone for every setzone in [-4,60] and two illegal values
+      // StandardZone for every setzone in [-4,60] and two illegal values (sanitizer run, --scale < 1: every 7th forced zone only)
+      const bool reduced = ctx.scale < 1;
       for (int sz = -5; sz <= 61; ++sz) {
+        if (reduced && sz > 0 && sz < 60 && (sz + lonedge) % 7) continue;
         int got = ZS; bool threw = false;
         try { got = UTMUPS::StandardZone(lat, lon, sz); } catch (const GeographicErr&) { threw = true; }
         ++nsz;
@@ -212,8 +220,10 @@ static void sec_lattice(Ctx& ctx, uint64_t idx) {
       }
       // Forward: zone, hemisphere, projection + false origin, acceptance against the documented rectangles
       int zs = 0; try { zs = spec::zone(lat, lon, spec::STANDARD); } catch (...) {}
+      if (reduced && ((lonedge + latedge) & 3) && v != 1) continue;
       if (ctx.quick()) {
-        int sel[] = {spec::STANDARD, spec::UTM, spec::MATCH, spec::INVALID, 0, zs > 1 ? zs - 1 : 60, zs >= 1 && zs < 60 ? zs + 1 : 1, (int)((dbits(lat) ^ dbits(lon) * 31) % 60) + 1, ((lonedge + v) & 1) ? 61 : -5};
+        int zz = zs >= 1 ? zs : spec::zone(lat, lon, spec::UTM);
+        int sel[] = {spec::STANDARD, spec::UTM, spec::MATCH, spec::INVALID, 0, (zz + 58) % 60 + 1, zz % 60 + 1, (zz - 1 + ((lonedge & 1) ? 15 : 45) + (lonedge & 6)) % 60 + 1, (int)((dbits(lat) ^ dbits(lon) * 31) % 60) + 1, ((lonedge + v) & 1) ? 61 : -5};
         for (int sz : sel) { bool mg = (sz + lonedge + v) & 1; judge_forward_dec(ctx, lat, lon, sz, mg, cls); ++nfw; }
       } else {
         for (int sz = -5; sz <= 61; ++sz) for (int mg = 0; mg < 2; ++mg) { judge_forward_dec(ctx, lat, lon, sz, mg, cls); ++nfw; }
@@ -403,4 +413,294 @@ static void sec_reverse(Ctx& ctx, uint64_t) {
   if (!(d <= 2 * TOL_POS + slack)) ctx.viol("law:C04/roundtrip-forward-reverse", cls, J(in).f("x2", o.x).f("y2", o.y).f("ground_m", d));
 }
 
-//@@MORE@@
+// ------------------------------------------------------------------ (c) the eight documented rectangles, closed-edge semantics (Reverse side)
+static void sec_rectangles(Ctx& ctx, uint64_t idx) {
+  // idx -> rectangle (8) x edge position (4 edges x 13 positions) x perpendicular offset (5: -2ulp.. via {-1ulp,0,+1ulp} + 1 mm in/out)
+  int ri = (int)(idx % 8); uint64_t t = idx / 8;
+  int pos = (int)(t % 52); t /= 52;
+  int off = (int)(t % 5); t /= 5;
+  int zi = (int)t;   // zone variant for UTM
+  bool utm = ri >= 4, northp = ri & 1, mgrs = (ri >> 1) & 1;
+  static const int zones[] = {1, 31, 32, 60, 17};
+  if (zi >= 5 || (!utm && zi > 0)) return;
+  int zone = utm ? zones[zi] : 0;
+  spec::Rect rc = spec::rect(utm, northp, mgrs);
+  int edge = pos / 13, s = pos % 13;
+  double fr = s / 12.0;   // 0 and 12 are the corners
+  double x, y;
+  auto perp = [&](double v, int dir) {   // dir = +1: outward is increasing
+    switch (off) { case 0: return vh::ulps(v, -1); case 1: return v; case 2: return vh::ulps(v, 1); case 3: return v - dir * 1e-3; default: return v + dir * 1e-3; } };
+  switch (edge) {
+    case 0: x = perp(rc.x0, -1); y = rc.y0 + fr * (rc.y1 - rc.y0); break;
+    case 1: x = perp(rc.x1, +1); y = rc.y0 + fr * (rc.y1 - rc.y0); break;
+    case 2: y = perp(rc.y0, -1); x = rc.x0 + fr * (rc.x1 - rc.x0); break;
+    default: y = perp(rc.y1, +1); x = rc.x0 + fr * (rc.x1 - rc.x0); break;
+  }
+  std::string cls = std::string("rectangle/") + (utm ? "utm-" : "ups-") + (northp ? "north" : "south") + (mgrs ? "/mgrslimits" : "/100km-slop") + (s == 0 || s == 12 ? "/corner" : "/edge");
+  ctx.count(cls, vh::hmix(vh::hmix(vh::hmix(15, x), y), (uint64_t)zone * 8 + ri));
+  J in = J().i("zone", zone).b("northp", northp).f("x", x).f("y", y).b("mgrslimits", mgrs).str("x_hex", hexf(x)).str("y_hex", hexf(y));
+  if (ctx.want_sample(cls)) ctx.sample(cls, in);
+  bool want = spec::inside(rc, x, y);
+  RevOut v = call_reverse(ctx, zone, northp, x, y, mgrs, cls, in);
+  ctx.event(want ? "rectangle: points on/inside the closed edge" : "rectangle: points outside");
+  if (v.threw && want) ctx.viol("range:C04/reverse/rejected-although-inside-documented-rectangle", cls, J(in).str("what", v.what));
+  if (!v.threw && !want) ctx.viol("range:C04/reverse/accepted-although-outside-documented-rectangle", cls, J(in).f("lat", v.lat).f("lon", v.lon));
+  if (!v.threw && want) {
+    // decomposition: Reverse == projection reverse of (x - FE, y - FN)
+    double la, lo, g, k;
+    if (utm) TransverseMercator::UTM().Reverse(spec::lon0(zone), x - spec::FE_UTM, y - (northp ? 0 : spec::FN_UTM_S), la, lo, g, k);
+    else PolarStereographic::UPS().Reverse(northp, x - spec::F_UPS, y - spec::F_UPS, la, lo, g, k);
+    auto eq = [](double a, double b) { return same(a, b) || (std::isnan(a) && std::isnan(b)); };
+    if (!(eq(la, v.lat) && eq(lo, v.lon) && eq(g, v.g) && eq(k, v.k))) ctx.viol("spec:C04/reverse/not-projection-minus-standard-false-origin", cls, J(in).f("lat", v.lat).f("want_lat", la).f("lon", v.lon).f("want_lon", lo));
+  }
+  // the mgrslimits flag of the other value must give the other rectangle's answer
+  {
+    spec::Rect r2 = spec::rect(utm, northp, !mgrs);
+    RevOut w = call_reverse(ctx, zone, northp, x, y, !mgrs, cls, in);
+    if (w.threw == spec::inside(r2, x, y)) ctx.viol("range:C04/reverse/mgrslimits-flag", cls, J(in).b("threw", w.threw));
+  }
+}
+static uint64_t n_rectangles() { return 8ull * 52 * 5 * 5; }
+
+// ------------------------------------------------------------------ (c') Forward side of the closed edges: locate the crossing by bisection
+// Along a meridian/parallel find adjacent doubles between which the projected coordinate crosses a rectangle limit, then
+// probe the neighbourhood: acceptance must flip exactly where (projection + false origin) crosses the closed limit.
+static void sec_forward_edges(Ctx& ctx, uint64_t idx) {
+  vh::Rng& r = ctx.rng;
+  int kind = (int)(idx % 6);
+  bool mgrs = (idx / 6) & 1;
+  double lat, lon; int setzone; bool vary_lat; double lo, hi;
+  switch (kind) {
+    case 0: setzone = r.range(1, 60); lon = spec::lon0(setzone) + r.uniform(-3, 3); vary_lat = true; lo = 80; hi = 89.9; lat = 0; break;       // UTM north: y max
+    case 1: setzone = r.range(1, 60); lon = spec::lon0(setzone) + r.uniform(-3, 3); vary_lat = true; lo = -89.9; hi = -75; lat = 0; break;    // UTM south: y min
+    case 2: setzone = r.range(1, 60); lat = r.uniform(-60, 60); vary_lat = false; lo = spec::lon0(setzone) + 0.5; hi = spec::lon0(setzone) + 40; lon = 0; break;   // x max
+    case 3: setzone = r.range(1, 60); lat = r.uniform(-60, 60); vary_lat = false; lo = spec::lon0(setzone) - 40; hi = spec::lon0(setzone) - 0.5; lon = 0; break;   // x min
+    case 4: setzone = 0; lon = r.pick({0.0, 90.0, 180.0, -90.0, 45.0, 135.0}) + (r.coin() ? 0.0 : r.uniform(-20, 20)); vary_lat = true; lo = 70.5; hi = 89; lat = 0; break;     // UPS north edge
+    default: setzone = 0; lon = r.pick({0.0, 90.0, 180.0, -90.0, -45.0, -135.0}) + (r.coin() ? 0.0 : r.uniform(-20, 20)); vary_lat = true; lo = -89; hi = -70.5; lat = 0; break;  // UPS south edge
+  }
+  auto acc = [&](double v) { Dec d = decompose(vary_lat ? v : lat, vary_lat ? lon : v, setzone, mgrs); return d.accept; };
+  bool alo = acc(lo), ahi = acc(hi);
+  std::string cls = std::string("forward-edge/") + (kind < 2 ? "utm-northing" : kind < 4 ? "utm-easting" : "ups") + (mgrs ? "/mgrslimits" : "/100km-slop");
+  if (alo == ahi) { ctx.count(cls + "/no-crossing-in-bracket", idx, true); return; }
+  for (int it = 0; it < 200 && vh::ulps(lo, 1) < hi; ++it) { double m = lo + (hi - lo) / 2; if (m <= lo || m >= hi) break; (acc(m) == alo ? lo : hi) = m; }
+  ctx.count(cls, vh::hmix(vh::hmix(vh::hmix(16, lo), vary_lat ? lon : lat), (uint64_t)setzone * 2 + mgrs));
+  if (ctx.want_sample(cls)) ctx.sample(cls, J().f("crossing_between", lo).f("and", hi).i("setzone", setzone).f(vary_lat ? "lon" : "lat", vary_lat ? lon : lat));
+  for (int u = -4; u <= 5; ++u) { double v = vh::ulps(lo, u); judge_forward_dec(ctx, vary_lat ? v : lat, vary_lat ? lon : v, setzone, mgrs, cls); }
+  ctx.event("forward-edge: ulp-neighbourhoods of an acceptance boundary probed");
+}
+
+// ------------------------------------------------------------------ (d) Transfer
+static void sec_transfer(Ctx& ctx, uint64_t) {
+  vh::Rng& r = ctx.rng;
+  // a legal input coordinate: project a random geographic point
+  double lat = r.coin(0.2) ? r.sign() * r.uniform(78, 90) : r.uniform(-84, 84), lon = r.uniform(-180, 180);
+  int z0 = spec::zone(lat, lon, spec::STANDARD), zin = z0;
+  if (z0 > 0 && r.coin(0.3)) zin = (z0 - 1 + r.range(-1, 1) + 60) % 60 + 1;
+  int zi; bool npin; double xin, yin;
+  try { UTMUPS::Forward(lat, lon, zi, npin, xin, yin, zin); } catch (const GeographicErr&) { ctx.count("transfer/input-not-representable", 0, true); return; }
+  int zoneout;
+  switch (r.below(8)) { case 0: zoneout = zin; break; case 1: zoneout = spec::MATCH; break; case 2: zoneout = spec::STANDARD; break; case 3: zoneout = spec::UTM; break;
+    case 4: zoneout = zin > 0 ? (zin - 1 + r.range(-1, 1) + 60) % 60 + 1 : 0; break; case 5: zoneout = r.range(-5, 61); break; case 6: zoneout = 0; break; default: zoneout = spec::INVALID; }
+  bool npout = r.coin(0.7) ? npin : !npin;
+  if (r.coin(0.03)) { zin = r.coin() ? 61 : -1; }        // illegal zonein
+  if (r.coin(0.03)) { zin = spec::INVALID; }
+  std::string cls = std::string("transfer/") + (zin == spec::INVALID ? "invalid-in" : zin < 0 || zin > 60 ? "illegal-zonein" : zin == 0 ? "from-ups" : "from-utm") + "/" +
+    (zoneout < -4 || zoneout > 60 ? "illegal-zoneout" : zoneout == spec::INVALID ? "to-invalid" : zoneout < 0 ? "to-pseudozone" : zoneout == 0 ? "to-ups" : zoneout == zin ? "same-zone" : "to-other-utm") + (npout != npin ? "/hemisphere-change" : "");
+  ctx.count(cls, vh::hmix(vh::hmix(vh::hmix(17, xin), yin), (uint64_t)(zin + 8) * 1000 + (zoneout + 8) * 4 + npin * 2 + npout));
+  J in = J().i("zonein", zin).b("northpin", npin).f("xin", xin).f("yin", yin).i("zoneout", zoneout).b("northpout", npout);
+  if (ctx.want_sample(cls)) ctx.sample(cls, in);
+  double xo = vh::sentinel(1), yo = vh::sentinel(2); int zo = ZS; bool threw = false; std::string what;
+  try { UTMUPS::Transfer(zin, npin, xin, yin, zoneout, npout, xo, yo, zo); }
+  catch (const GeographicErr& e) { threw = true; what = e.what(); }
+  catch (const std::exception& e) { threw = true; ctx.viol("exception:C04/transfer/non-library-exception", cls, J(in).str("what", e.what())); }
+  if (threw && !(vh::is_sentinel(xo, 1) && vh::is_sentinel(yo, 2) && zo == ZS)) ctx.viol("sentinel:C04/transfer/output-modified-by-throwing-call", cls, J(in).str("what", what).f("xout", xo).f("yout", yo).i("zone", zo));
+  // expectation: go through geographic coordinates (the operations themselves are judged in the other sections)
+  bool wthrow = false; double wx = NaN, wy = NaN; int wz = 0;
+  try {
+    if (zin != zoneout) {
+      double la, lo; UTMUPS::Reverse(zin, npin, xin, yin, la, lo);
+      int z1; bool np1; double x1, y1;
+      UTMUPS::Forward(la, lo, z1, np1, x1, y1, zoneout == spec::MATCH ? zin : zoneout);
+      if (z1 == 0 && np1 != npout) throw GeographicErr("UPS hemisphere");
+      wz = z1; wx = x1; wy = y1;
+      if (np1 != npout) wy += npout ? -spec::FN_UTM_S : spec::FN_UTM_S;
+    } else {
+      if (zoneout == 0 && npin != npout) throw GeographicErr("UPS hemisphere");
+      wz = zoneout; wx = xin; wy = yin;
+      if (npin != npout) wy += npout ? -spec::FN_UTM_S : spec::FN_UTM_S;
+    }
+  } catch (const GeographicErr&) { wthrow = true; }
+  if (threw != wthrow) { ctx.viol("law:C04/transfer/error-contract-differs-from-forward-of-reverse", cls, J(in).b("threw", threw).str("what", what)); return; }
+  if (threw) { ctx.event("transfer: throwing calls (outputs verified untouched)"); return; }
+  auto eq = [](double a, double b) { return same(a, b) || (std::isnan(a) && std::isnan(b)); };
+  if (!(zo == wz && eq(xo, wx) && eq(yo, wy))) ctx.viol("law:C04/transfer/differs-from-forward-of-reverse", cls, J(in).f("xout", xo).f("want_x", wx).f("yout", yo).f("want_y", wy).i("zone", zo).i("want_zone", wz));
+  if (zoneout >= 0 && zoneout <= 60 && zo != zoneout) ctx.viol("law:C04/transfer/zone-not-zoneout", cls, J(in).i("zone", zo));
+  {   // documented: (xout, yout) may overlap (xin, yin)
+    double xa = xin, ya = yin; int za = ZS;
+    try { UTMUPS::Transfer(zin, npin, xa, ya, zoneout, npout, xa, ya, za); } catch (const GeographicErr&) { za = ZS - 1; }
+    if (!(za == zo && eq(xa, xo) && eq(ya, yo))) ctx.viol("law:C04/transfer/aliased-arguments-differ", cls, J(in).f("xout", xo).f("x_aliased", xa).f("yout", yo).f("y_aliased", ya));
+  }
+  // same geographic point: Reverse of the output (in its frame) returns the original lat/lon to 2 x 5 nm K
+  if (zo >= 0 && zin >= 0 && zin <= 60 && std::isfinite(xo) && std::isfinite(yo)) {
+    double la, lo, g, k; bool ok = true;
+    try { UTMUPS::Reverse(zo, npout, xo, yo, la, lo, g, k); } catch (const GeographicErr&) { ok = false; }
+    if (ok) {
+      RefXY m; LD s, co; ref::sincosd((LD)lat, s, co); LD e2 = (LD)WGS84_F * (2 - (LD)WGS84_F), w = 1 - e2 * s * s;
+      m.rho = (double)((LD)WGS84_A * (1 - e2) / (w * std::sqrt(w))); m.nucos = (double)((LD)WGS84_A * co / std::sqrt(w));
+      double d = ground(m, lat, lon, la, lo);
+      ctx.obs("Transfer: ground distance between source point and Reverse(output) [nm]", d * 1e9, in);
+      if (!(d <= 4 * TOL_POS)) ctx.viol("law:C04/transfer/not-the-same-geographic-point", cls, J(in).f("lat", lat).f("lon", lon).f("lat2", la).f("lon2", lo).f("ground_m", d));
+    } else ctx.event("transfer: output outside the rectangle of the requested hemisphere (continued northing)");
+  }
+}
+
+// ------------------------------------------------------------------ (e) zone strings and EPSG codes
+static const char ALPHA[] = {'0','1','2','3','4','5','6','7','8','9','n','s','o','r','t','h','u','i','v','a','l','d','N','S','+','-',' ','\0','e'};
+static const int NALPHA = sizeof ALPHA;
+static void check_decode(Ctx& ctx, const std::string& s, const std::string& cls, uint64_t& nlegal) {
+  int z = ZS; bool np = (s.size() & 1), np0 = np, threw = false;
+  try { UTMUPS::DecodeZone(s, z, np); } catch (const GeographicErr&) { threw = true; }
+  catch (const std::exception& e) { threw = true; ctx.viol("exception:C04/decodezone/non-library-exception", cls, J().str("s", s).str("what", e.what())); }
+  int wz = 0; bool wn = false; bool legal = spec::decode(s, wz, wn);
+  if (legal) ++nlegal;
+  if (threw == legal) ctx.viol(legal ? "spec:C04/decodezone/legal-string-rejected" : "spec:C04/decodezone/illegal-string-accepted", cls, J().str("s", s).i("zone", z).b("northp", np));
+  else if (!threw && (z != wz || np != wn)) ctx.viol("spec:C04/decodezone/wrong-value", cls, J().str("s", s).i("zone", z).b("northp", np).i("want_zone", wz).b("want_northp", wn));
+  if (threw && (z != ZS || np != np0)) ctx.viol("sentinel:C04/decodezone/output-modified-by-throwing-call", cls, J().str("s", s).i("zone", z));
+  if (!threw && legal) {   // re-encode: canonical form decodes to the same
+    for (int ab = 0; ab < 2; ++ab) {
+      std::string e = UTMUPS::EncodeZone(z, np, ab); int z2; bool n2; UTMUPS::DecodeZone(e, z2, n2);
+      if (z2 != z || n2 != np) ctx.viol("law:C04/zone-string-roundtrip", cls, J().str("s", s).str("encoded", e));
+    }
+  }
+}
+static void sec_strings_exh(Ctx& ctx, uint64_t idx) {
+  std::string cls = "zone-string/exhaustive-len<=4";
+  uint64_t n = 0, nlegal = 0;
+  if (idx == (uint64_t)NALPHA * NALPHA) {        // lengths 0 and 1
+    check_decode(ctx, "", cls, nlegal); ++n;
+    for (int a = 0; a < NALPHA; ++a) { check_decode(ctx, std::string(1, ALPHA[a]), cls, nlegal); ++n; }
+  } else {
+    std::string p; p += ALPHA[idx / NALPHA]; p += ALPHA[idx % NALPHA];
+    check_decode(ctx, p, cls, nlegal); ++n;
+    for (int a = 0; a < NALPHA; ++a) {
+      std::string q = p + ALPHA[a]; check_decode(ctx, q, cls, nlegal); ++n;
+      for (int b = 0; b < NALPHA; ++b) { check_decode(ctx, q + ALPHA[b], cls, nlegal); ++n; }
+    }
+  }
+  ctx.count(cls, vh::hmix(18, idx));
+  ctx.event("zone-string: strings decoded (exhaustive part)", n);
+  ctx.event("zone-string: legal strings among them", nlegal);
+}
+static void sec_strings_rand(Ctx& ctx, uint64_t idx) {
+  vh::Rng& r = ctx.rng; std::string s, cls; uint64_t nl = 0;
+  switch (r.below(4)) {
+    case 0: { int len = r.range(5, 8); for (int i = 0; i < len; ++i) s += ALPHA[r.below(NALPHA)]; cls = "zone-string/random-alphabet-len5-8"; break; }
+    case 1: { // legal string, random case
+      int z = r.range(0, 60); char b[8] = ""; if (z) std::snprintf(b, sizeof b, r.coin() ? "%02d" : "%d", z);
+      s = std::string(b) + r.pick({"n", "s", "north", "south"}); for (auto& ch : s) if (r.coin(0.3)) ch = (char)std::toupper((unsigned char)ch);
+      if (r.coin(0.1)) s = r.coin() ? "inv" : "INVALID"; cls = "zone-string/legal"; break; }
+    case 2: { // one mutation of a legal string
+      int z = r.range(0, 99); char b[8] = ""; if (z) std::snprintf(b, sizeof b, r.coin() ? "%02d" : "%d", z);
+      s = std::string(b) + r.pick({"n", "s", "north", "south", "inv", "invalid"});
+      int m = (int)r.below(4); size_t pos = s.empty() ? 0 : r.below(s.size() + 1);
+      if (m == 0) s.insert(pos, 1, ALPHA[r.below(NALPHA)]); else if (m == 1 && !s.empty()) s.erase(std::min(pos, s.size() - 1), 1); else if (m == 2 && !s.empty()) s[std::min(pos, s.size() - 1)] = ALPHA[r.below(NALPHA)]; else s = " " + s;
+      cls = "zone-string/mutated"; break; }
+    default: { int len = r.range(0, 8); for (int i = 0; i < len; ++i) s += (char)r.below(256); cls = "zone-string/random-bytes"; }
+  }
+  ctx.count(cls, vh::hmixs(19, s));
+  if (ctx.want_sample(cls)) ctx.sample(cls, J().str("s", s));
+  check_decode(ctx, s, cls, nl);
+  (void)idx;
+}
+static void sec_encode_epsg(Ctx& ctx, uint64_t idx) {
+  if (idx == 0) {           // EncodeZone over all zones incl. illegal
+    for (int z = -8; z <= 64; ++z) for (int np = 0; np < 2; ++np) for (int ab = 0; ab < 2; ++ab) {
+      std::string got, want; bool threw = false; bool legal = spec::encode(z, np, ab, want);
+      try { got = UTMUPS::EncodeZone(z, np, ab); } catch (const GeographicErr&) { threw = true; }
+      ctx.count("encodezone/all-zones", vh::hmix(20, (uint64_t)((z + 8) * 4 + np * 2 + ab)));
+      if (threw == legal || (!threw && got != want)) ctx.viol("spec:C04/encodezone", "encodezone/all-zones", J().i("zone", z).b("northp", np).b("abbrev", ab).str("got", got).str("want", want).b("threw", threw));
+      if (!threw) { int z2 = ZS; bool n2 = !np; UTMUPS::DecodeZone(got, z2, n2); if (z2 != z || (z != spec::INVALID && n2 != (bool)np)) ctx.viol("law:C04/zone-string-roundtrip", "encodezone/all-zones", J().i("zone", z).str("encoded", got)); }
+    }
+    // EncodeEPSG over all zones
+    for (int z = -8; z <= 64; ++z) for (int np = 0; np < 2; ++np) {
+      int got = UTMUPS::EncodeEPSG(z, np), want = spec::encode_epsg(z, np);
+      ctx.count("epsg/encode-all-zones", vh::hmix(21, (uint64_t)((z + 8) * 2 + np)));
+      if (got != want) ctx.viol("spec:C04/encodeepsg", "epsg/encode-all-zones", J().i("zone", z).b("northp", np).i("got", got).i("want", want));
+      if (got >= 0) { int z2; bool n2; UTMUPS::DecodeEPSG(got, z2, n2); if (z2 != z || n2 != (bool)np) ctx.viol("law:C04/epsg-roundtrip", "epsg/encode-all-zones", J().i("zone", z).i("epsg", got)); }
+    }
+    return;
+  }
+  int e;
+  std::string cls;
+  if (idx <= 181) { e = 32590 + (int)(idx - 1); cls = "epsg/decode-exhaustive-32590..32770"; }
+  else { vh::Rng& r = ctx.rng; switch (r.below(4)) { case 0: e = (int)r.next(); break; case 1: e = r.pick({INT_MIN, INT_MAX, 0, -1, 4326, 32600, 32662, 32700, 32762}); break; case 2: e = r.range(30000, 35000); break; default: e = r.range(-100000, 100000); } cls = "epsg/decode-random"; }
+  ctx.count(cls, vh::hmix(22, (uint64_t)(uint32_t)e));
+  int z = ZS; bool np = true; UTMUPS::DecodeEPSG(e, z, np);
+  int wz; bool wn; spec::decode_epsg(e, wz, wn);
+  if (z != wz || np != wn) ctx.viol("spec:C04/decodeepsg", cls, J().i("epsg", e).i("zone", z).b("northp", np).i("want_zone", wz).b("want_northp", wn));
+  if (z != spec::INVALID && UTMUPS::EncodeEPSG(z, np) != e) ctx.viol("law:C04/epsg-roundtrip", cls, J().i("epsg", e));
+}
+
+// ------------------------------------------------------------------ (f) NaN / infinity policy
+static void sec_nan(Ctx& ctx, uint64_t idx) {
+  vh::Rng& r = ctx.rng;
+  double lat = r.uniform(-90, 90), lon = r.uniform(-180, 180);
+  int which = (int)(idx % 6); bool mgrs = r.coin();
+  if (which < 3) {
+    int sz = which == 0 ? r.range(-4, -1) : (idx / 6) % 2 ? r.range(-4, -1) : r.range(0, 60);
+    double la = which == 0 || which == 2 ? NaN : lat, lo = which == 1 || which == 2 ? (r.coin(0.6) ? NaN : r.sign() * INF) : lon;
+    std::string cls = std::string("nan/forward/") + (std::isnan(la) ? "lat" : "") + (std::isnan(lo) ? "lon" : std::isinf(lo) ? "lon-inf" : "") + (sz < 0 ? "/pseudo-zone" : "/forced-zone");
+    ctx.count(cls, vh::hmix(vh::hmix(23, (uint64_t)(which * 100 + sz + 10)), lon));
+    J in = J().f("lat", la).f("lon", lo).i("setzone", sz).b("mgrslimits", mgrs);
+    if (ctx.want_sample(cls)) ctx.sample(cls, in);
+    FwdOut o = call_forward(ctx, la, lo, sz, mgrs, cls, in);
+    if (o.threw) { ctx.viol(sz < 0 ? "nan:C04/forward/throws-on-nan" : "nan:C04/forward/forced-zone-throws-on-nan", cls, J(in).str("what", o.what)); return; }
+    // pseudo-zone: everything NaN; forced zone: the coordinates must be NaN (gamma / k may legitimately not depend on the NaN argument, e.g. k of UPS on lon)
+    if (!(std::isnan(o.x) && std::isnan(o.y) && (sz >= 0 || (std::isnan(o.g) && std::isnan(o.k))))) ctx.viol("nan:C04/forward/finite-output-from-nan-input", cls, J(in).f("x", o.x).f("y", o.y).f("gamma", o.g).f("k", o.k));
+    if (sz >= 0 && !(std::isnan(o.g) && std::isnan(o.k))) ctx.event("nan: forced zone, gamma or k finite because independent of the NaN argument");
+    if (sz < 0 || sz == spec::INVALID) { if (o.zone != spec::INVALID) ctx.viol("nan:C04/forward/zone-not-INVALID", cls, J(in).i("zone", o.zone)); }
+    else { if (o.zone != sz && o.zone != spec::INVALID) ctx.viol("nan:C04/forward/zone-not-INVALID", cls, J(in).i("zone", o.zone)); ctx.event(o.zone == sz ? "nan: forced zone returned with NaN coordinates" : "nan: INVALID returned for forced zone"); }
+    // StandardZone
+    int z = 0; try { z = UTMUPS::StandardZone(la, lo, sz); } catch (const GeographicErr&) { ctx.viol("nan:C04/standardzone/throws-on-nan", cls, in); }
+    if (z != spec::zone(la, lo, sz)) ctx.viol("nan:C04/standardzone/value", cls, J(in).i("zone", z));
+  } else if (which < 5) {
+    int zone = which == 3 ? r.range(0, 60) : spec::INVALID; bool np = r.coin();
+    double x = which == 3 ? (r.coin() ? NaN : 500000.0) : 500000.0, y = (which == 3 && !std::isnan(x)) ? NaN : (r.coin(0.3) ? NaN : 1e6);
+    std::string cls = which == 3 ? "nan/reverse/nan-coordinate" : "nan/reverse/INVALID-zone";
+    ctx.count(cls, vh::hmix(vh::hmix(24, (uint64_t)(zone + 10)), lon));
+    J in = J().i("zone", zone).b("northp", np).f("x", x).f("y", y);
+    if (ctx.want_sample(cls)) ctx.sample(cls, in);
+    RevOut v = call_reverse(ctx, zone, np, x, y, mgrs, cls, in);
+    if (v.threw) ctx.viol("nan:C04/reverse/throws-on-nan", cls, J(in).str("what", v.what));
+    else if (!(std::isnan(v.lat) && std::isnan(v.lon) && std::isnan(v.g) && std::isnan(v.k))) ctx.viol("nan:C04/reverse/finite-output-from-nan-input", cls, J(in).f("lat", v.lat).f("lon", v.lon));
+  } else {
+    // Transfer from the INVALID zone / NaN coordinates: INVALID out, NaN out
+    int zin = r.coin() ? spec::INVALID : r.range(1, 60); double x = zin == spec::INVALID ? 5e5 : NaN, y = 1e6;
+    int zoneout = r.range(-4, 60); if (zoneout == zin) zoneout = spec::STANDARD;
+    std::string cls = "nan/transfer";
+    ctx.count(cls, vh::hmix(vh::hmix(25, (uint64_t)(zin + 10)), (uint64_t)(zoneout + 10)));
+    J in = J().i("zonein", zin).f("xin", x).f("yin", y).i("zoneout", zoneout);
+    double xo = 1, yo = 2; int zo = ZS; bool threw = false; std::string what;
+    try { UTMUPS::Transfer(zin, true, x, y, zoneout, true, xo, yo, zo); } catch (const GeographicErr& e) { threw = true; what = e.what(); }
+    if (threw) { ctx.viol(zoneout >= 1 ? "nan:C04/transfer/forced-zone-throws-on-nan" : "nan:C04/transfer/throws-on-nan", cls, J(in).str("what", what)); return; }
+    if (!(std::isnan(xo) && std::isnan(yo))) ctx.viol("nan:C04/transfer/finite-output-from-nan-input", cls, J(in).f("xout", xo).f("yout", yo).i("zone", zo));
+    if (zoneout < 0 && zo != spec::INVALID) ctx.viol("nan:C04/transfer/zone-not-INVALID", cls, J(in).i("zone", zo));
+  }
+}
+
+int main(int argc, char** argv) {
+  std::vector<Section> S;
+  S.push_back({"zone_lattice", 724, 724, false, sec_lattice, 300});
+  S.push_back({"rectangles", n_rectangles(), n_rectangles(), false, sec_rectangles});
+  S.push_back({"strings_exh", (uint64_t)NALPHA * NALPHA + 1, (uint64_t)NALPHA * NALPHA + 1, false, sec_strings_exh, 120});
+  S.push_back({"encode_epsg", 182, 182, false, sec_encode_epsg});
+  S.push_back({"epsg_random", 20000, 2000000, true, [](Ctx& c, uint64_t i) { sec_encode_epsg(c, i + 1000); }});
+  S.push_back({"zone_random", 60000, 3000000, true, sec_zone_random});
+  S.push_back({"projection", 14000, 300000, true, sec_projection, 60});
+  S.push_back({"reverse", 7000, 150000, true, sec_reverse, 60});
+  S.push_back({"forward_edges", 1200, 30000, true, sec_forward_edges, 60});
+  S.push_back({"transfer", 40000, 1500000, true, sec_transfer});
+  S.push_back({"strings_rand", 100000, 5000000, true, sec_strings_rand});
+  S.push_back({"nan", 6000, 120000, true, sec_nan});
+  return vh::run_sections(argc, argv, S);
+}
